@@ -293,7 +293,7 @@ func (c *Cluster) queryHosts(ctx context.Context, conn *ClientConn, version prim
 	if err != nil {
 		return nil, ClusterInfo{}, err
 	}
-	if rs.RowCount() == 0 {
+	if rs == nil || rs.RowCount() == 0 { // `Query()` returns no result set for a result that has no rows (e.g. `RESULT(Void)`)
 		return nil, ClusterInfo{}, errors.New("empty result set returned for system.local")
 	}
 	hosts = c.addHosts(hosts, rs)
@@ -332,6 +332,9 @@ func (c *Cluster) queryHosts(ctx context.Context, conn *ClientConn, version prim
 	})
 	if err != nil {
 		return nil, ClusterInfo{}, err
+	}
+	if rs == nil {
+		return nil, ClusterInfo{}, errors.New("no result set returned for system.peers")
 	}
 	hosts = c.addHosts(hosts, rs)
 
